@@ -883,6 +883,10 @@ class ANF:
                 if v[0] in ("tuple", "list"):
                     args.extend(v[1])
                     continue
+                if _is_pair(v):
+                    # f(*pair) is f(pair[0], pair[1]) for the values the package builds as (start, end) pairs
+                    args.extend([read(v, (C(0),)), read(v, (C(1),))])
+                    continue
                 v = ("star", v)
             args.append(v)
         kw = tuple(sorted(((k.arg or "**"), ev(k.value)) for k in e.keywords))
@@ -1267,6 +1271,19 @@ def _lift(v):
     if isinstance(v, (list, tuple)):
         return ("tuple" if isinstance(v, tuple) else "list", tuple(_lift(x) for x in v))
     return C(v)
+
+
+def _is_pair(t):
+    """values that are 2-tuples by construction: an entry of a from_to lookup (create_lookups stores (start, end) per table) and the
+    result of <Component>.from_to_node_cols()"""
+    if not isinstance(t, tuple) or not t:
+        return False
+    if t[0] == "idx" and len(t[2]) == 1 and t[1][0] == "call" and t[1][1][0] == "f" and t[1][1][1].endswith(".get_lookup") \
+            and len(t[1][2]) >= 3 and t[1][2][2] == C("from_to"):
+        return True
+    if t[0] == "call" and t[1][0] == "attr" and t[1][2] == "from_to_node_cols":
+        return True
+    return False
 
 
 def _setlike(t):
